@@ -9,7 +9,10 @@
 (*          length of the longest occurring suffix of p; 0 = Absent exactly   *)
 (*          when the last symbol does not occur; pos = Interval::occ(sa) must *)
 (*          be exactly the occurrence positions (each once) of the matched    *)
-(*          suffix.  The same object answers all searches of a run.           *)
+(*          suffix.  The same object answers all searches of a run; `it` = kind*)
+(*          of iterator the pattern was handed over with (no influence).      *)
+(*   serde  {}  -> ok      owned index + sampled array round-tripped through  *)
+(*          serde; the searches after it are judged like the ones before      *)
 (* run.cfg = [kind = "unary", n, a, sent, k, s]: closed-form family A^(n-1)$   *)
 (* (n > 2^24; suffix array n-1..0 given in closed form, not logged):           *)
 (*   new_unary    {}  -> n                                                     *)
@@ -28,7 +31,8 @@ vars == <<run, idx, ok>>
 Explains(cfg, e) ==
     LET c == e.c  r == e.r  t == cfg.text IN
     /\ r.st = "ok"
-    /\ CASE c.op = "new" -> SentinelOK(t) /\ r.n = Len(t)       \* (r.sa is only used by MachineAgrees)
+    /\ CASE c.op = "serde" -> TRUE      \* the index (and sampled array) went through Serialize/Deserialize
+         [] c.op = "new" -> SentinelOK(t) /\ r.n = Len(t)       \* (r.sa is only used by MachineAgrees)
          [] c.op = "search" ->
               LET p == c.a.p IN
               /\ Len(p) >= 1 /\ \A i \in 1..Len(p) : p[i] # Sentinel(t) /\ p[i] \in Range(cfg.alpha)
